@@ -112,6 +112,11 @@ func (f *localFileEntryFactory) Create(name string, state FileState) (FileEntry,
 	if name != filepath.Clean(name) {
 		return nil, ErrInvalidName
 	}
+	if name == "." || name == ".." {
+		// Clean leaves these untouched, but neither names an entry inside the state
+		// directory: "." is the state directory itself and ".." is its parent.
+		return nil, ErrInvalidName
+	}
 	if strings.HasPrefix(name, "/") || strings.HasSuffix(name, "/") || strings.HasPrefix(name, "../") {
 		return nil, ErrInvalidName
 	}
